@@ -29,7 +29,9 @@ def model_value(m, t):
     if z3.is_false(v):
         return False
     if z3.is_string_value(v):
-        return v.as_string()
+        import re
+        # z3 prints non-ASCII / control characters as \u{hex}: decode them, the replay needs the string itself
+        return re.sub(r"\\u\{([0-9a-fA-F]+)\}", lambda mo: chr(int(mo.group(1), 16)), v.as_string())
     if z3.is_algebraic_value(v):
         return float(v.approx(10).as_fraction())
     return str(v)
